@@ -294,7 +294,9 @@ func checkC02(c *Ctx, r *Report) {
 			r.Check(!folded, "C02.R3", "path case is preserved", c.Pos(f.Pos()), "no case fold on the path", "the path is case-folded: /A and /a share an entry")
 			// the path keyed is the path as spelled on the wire: with the decoded URL.Path an encoded slash
 			// (%2F) becomes a separator and /a%2Fb is answered from the entry of /a/b
-			escaped := calls["(*net/url.URL).EscapedPath"] || s["URL.RawPath"]
+			// URL.RawPath by itself is not it: it is empty whenever the spelling on the wire equals Go's default
+			// encoding, and a fall-back to the decoded URL.Path then keys "/a%2541" like the raw spelling "/a%41"
+			escaped := calls["(*net/url.URL).EscapedPath"] || calls["(*net/url.URL).RequestURI"] || calls["(*net/url.URL).String"]
 			r.Check(escaped, "C02.R6", "the path component is the escaped path", c.Pos(f.Pos()), "URL.EscapedPath() / RawPath", "the key is built from the percent-decoded URL.Path: /a%2Fb, /a%2F../b and /p%2F%2Fq are keyed like /a/b, /b and /p/q although they are different paths (no dot-segment or duplicate slash involved)")
 			if calls["path.Clean"] {
 				// trailing slash restore: operand depends (phi) on HasSuffix(r.URL.Path, "/") and one edge appends "/"
